@@ -236,6 +236,11 @@ func clientProbes() []event {
 		pub(P("B", "a", "X", "v22")),
 		pub(P("B", "a", "X", "v22")),                                                               // replayed
 		pub(with(P("A", "a", "X", "v19"), func(p *pubSpec) { p.Relayed = true; p.Stream = "s2" })), // replayed over another link
+		// a forged frame must not use up the message id of the genuine message that follows it
+		pub(with(P("A", "a", "X", "v30"), mut("badsig", ""))),
+		pub(P("A", "a", "X", "v30")),
+		pub(with(P("B", "a/b", "X", "v31"), func(p *pubSpec) { p.Mut = "badsig"; p.Stream = "s2" })),
+		pub(P("B", "a/b", "X", "v31")),
 	}
 }
 
